@@ -33,7 +33,7 @@ def prepare():
 # strategies
 # --------------------------------------------------------------------------------------
 NAME_ALPHABET = "abXY019_\\"
-COLORS = ["ff0000", "00aa00", "0000ff", "123abc"]
+COLORS = ["ff0000", "00aa00", "0000ff", "123abc", "000000"]
 PARAM_CHOICES = {
     "species_branch_padding": [4, 0.5, 11],
     "gene_branch_spacing": [5, 1, 17],
